@@ -139,8 +139,8 @@ func checkC18(c C18Case) error {
 
 // ---- generator ------------------------------------------------------------------------------
 
-var c18Colls = []string{"xs", "xs_alias", "ts", "ss", "arr", "nest.inner", "st.Tags", "pst.Tags", "ys"}
-var c18Maps = []string{"m", "m_alias", "tm", "nest"}
+var c18Colls = []string{"xs", "xs_alias", "ts", "ss", "arr", "nest.inner", "st.Tags", "pst.Tags", "ys", "row", "names", "nints", "dict.inner"}
+var c18Maps = []string{"m", "m_alias", "tm", "nest", "dict"}
 
 func c18Ctx(t *rapid.T) Ctx {
 	var c Ctx
@@ -162,6 +162,10 @@ func c18Ctx(t *rapid.T) Ctx {
 	c.Set("m_alias", Null())
 	c.Set("tm", ZT(Hash([]string{"y", "x"}, []*E{Int(2), Int(1)}), "map[string]int"))
 	c.Set("nest", Hash([]string{"inner", "k"}, []*E{List(mk("in")...), Int(5)}))
+	c.Set("row", ZT(List(mk("r")...), "named[]iface"))
+	c.Set("names", ZT(List(Str("n3"), Str("n1"), Str("n2")), "named[]string"))
+	c.Set("nints", ZT(List(mk("ni")...), "named[]int"))
+	c.Set("dict", ZT(Hash([]string{"z", "inner", "a"}, []*E{Int(1), ZT(List(mk("di")...), "named[]iface"), Int(2)}), "namedmap"))
 	c.Set("st", ZT(Hash([]string{"Name", "Tags"}, []*E{Str("nm"), List(Str("t2"), Str("t1"))}), "struct"))
 	c.Set("pst", ZT(Hash([]string{"Name", "Tags"}, []*E{Str("pn"), List(Str("q2"), Str("q1"))}), "ptrstruct"))
 	return c
@@ -224,7 +228,7 @@ func genC18(t *rapid.T) (C18Case, []string) {
 	return C18Case{Ctx: ctx, Tmpl: tm}, cl
 }
 
-const c18Rule = "contexts in which every collection is reachable twice (aliased keys) and nested (untyped lists with spare capacity, []int, []string, [3]int, untyped and typed maps, struct and pointer-to-struct fields); templates that apply chains of 1-4 collection-returning filters (sort, reverse, merge, slice, default) and functions (merge, max, cycle, range) to them, set results and re-filter them, loop with set on the loop variable, pass them through include-with and macro arguments where the callee reassigns and re-filters them, and rebind context names; non-trivial = at least one collection-returning filter is applied to a context collection with >= 2 elements (always true by construction); distinct by (context, template)"
+const c18Rule = "contexts in which every collection is reachable twice (aliased keys) and nested (untyped lists with spare capacity, []int, []string, [3]int, named slice and map types (type Row []interface{} ...), untyped and typed maps, struct and pointer-to-struct fields); templates that apply chains of 1-4 collection-returning filters (sort, reverse, merge, slice, default) and functions (merge, max, cycle, range) to them, set results and re-filter them, loop with set on the loop variable, pass them through include-with and macro arguments where the callee reassigns and re-filters them, and rebind context names; non-trivial = at least one collection-returning filter is applied to a context collection with >= 2 elements (always true by construction); distinct by (context, template)"
 
 func TestC18Immutable(t *testing.T) {
 	r := NewRec(t, "C18", c18Rule)
